@@ -335,7 +335,12 @@ Section Gated.
         destruct (gate is_space w n true) as [[ge a] w0] eqn:G. cbv beta iota zeta in H.
         pose proof (gate_od _ _ _ _ _ _ _ G) as O0.
         destruct a.
-        + destruct (obtain_on_demand LAM w0 h n) as [[[e1 k1] r1] w2] eqn:E1. inv H.
+        + destruct held.
+          { inv H. split; [|split; [constructor|exact O0]].
+            apply anyst_cons_quiet; [reflexivity|reflexivity|].
+            replace ge with (ge ++ if true then [] else @nil effect) by apply app_nil_r.
+            apply (gate_then _ _ _ true _ [] []) with (1 := G); [exact D|reflexivity|apply anyst_nil]. }
+          destruct (obtain_on_demand LAM w0 h n) as [[[e1 k1] r1] w2] eqn:E1. inv H.
           assert (D0 : od_on w0 = true) by (rewrite (od_on_eq _ _ O0); exact D).
           split; [|].
           * apply anyst_cons_quiet; [reflexivity|reflexivity|].
@@ -950,9 +955,7 @@ Section Truthful.
     unfold renew_dynamic. intros H W. destruct (h_name h) as [n|].
     2:{ inv H. split; [constructor|split; [constructor|exact W]]. }
     destruct held.
-    - destruct (c_expired c || c_revoked c); inv H; (split; [|split; [constructor|exact W]]).
-      + constructor; [exact I|constructor].
-      + constructor.
+    - destruct (c_expired c || c_revoked c); inv H; (split; [|split; [constructor|exact W]]); constructor.
     - destruct (c_expired c).
       + destruct (renew_and_reload _ _ _ _ _) as [[e1 r1] w2] eqn:E1.
         apply rar_truthful in E1 as [A W2]; [|exact W]. inv H. split; [exact A|split; [constructor|exact W2]].
@@ -994,7 +997,9 @@ Section Truthful.
         2:{ inv H. split; [constructor; [exact I|constructor]|split; [constructor|exact W]]. }
         destruct (gate is_space w n true) as [[ge a] w0] eqn:G. cbv beta iota zeta in H.
         apply gate_truthful in G as [PG W0]; [|exact W]. destruct a.
-        + destruct (obtain_on_demand LAM w0 h n) as [[[e1 k1] r1] w2] eqn:E1.
+        + destruct held.
+          { inv H. split; [constructor; [exact I|exact PG]|split; [constructor|exact W0]]. }
+          destruct (obtain_on_demand LAM w0 h n) as [[[e1 k1] r1] w2] eqn:E1.
           apply ood_truthful in E1 as (A1 & K1 & W2); [|exact W0]. inv H.
           split; [constructor; [exact I|apply plain_app; assumption]|auto].
         + inv H. split; [|split; [constructor|eapply winv_same; [apply same_cache_remove|exact W0]]].
